@@ -617,7 +617,7 @@ def run(ck):
     plan_heads = {}
 
     def count_heads(plan):
-        for h in set(re.findall(r"\(([^\s()]+)", plan or "")) | set(re.findall(r"(?<=[\s(])(inner|left_outer|right_outer|full_outer|semi|anti)(?=[\s)])", plan or "")):
+        for h in set(re.findall(r"\(([^\s()]+)", plan or "")) | set(re.findall(r"(?<=[\s(])(inner|left_outer|right_outer|full_outer|semi|anti|rowcount|row_number)(?=[\s)])", plan or "")):
             h = h.strip('"')
             plan_heads[h] = plan_heads.get(h, 0) + 1
     distinct = set()
